@@ -179,6 +179,12 @@ func (t *Tokenizer) Next() Token {
 	}
 }
 
+// drain reads all remaining tokens, which allows the goroutine started by Start to terminate.
+func (t *Tokenizer) drain() {
+	for range t.tok {
+	}
+}
+
 func (t *Tokenizer) getLine() Line {
 	return t.line
 }
